@@ -39,6 +39,20 @@ CLAIMED = {
             'each behaviour is run on the 12 analysis classes with frames and preprocess chains: ids, arrays handed to update, compute points, bit-identical one-shot results, scores = discriminant(results), '
             'accumulation over repeated runs; Container.batch_size equals the specified rule at every table threshold and MB setting.',
             'Exact regime (integer samples); expected arrays evaluated with the public preprocess/model/selection callables; frame=int outside the quantifier.', '6/C02'),
+    'C05': ('TLA+ specification of AES from FIPS-197 first principles (AES.tla) run as a step machine (AESRun.tla: one transition per round operation, encrypt then decrypt), structural model of the '
+            'stop-point construction (AESStops.tla, exhaustive over 312 stop points, off-by-one variant refuted), single operations (AESOps.tla), trace validation of recorded stop-point sequences (AESTrace.tla)',
+            'TLC reproduces FIPS-197 Appendix C.1-C.3 and A.1, checks decrypt(encrypt(x)) = x and inverse operations on every visited state; every behaviour trail is compared with the real encrypt/decrypt at every '
+            '(at_round, after_step) in the four broadcasting shapes and five dtypes with caller arrays unchanged; every byte value at every state position for every round operation; recorded sequences validated pairwise.',
+            'Keys and blocks are sampled (FIPS examples, structured, seeded random); per-table-entry and per-position coverage is exhaustive.', '6/C05'),
+    'C06': ('TLA+ specification of DES/TDES from FIPS 46-3 on bit sequences (DES.tla: IP, E by formula, FP = IP^-1, S-boxes in row/column form) run as a Feistel step machine with EDE passes (DESRun.tla), primitives (DESOps.tla)',
+            'TLC reproduces the classic known answer, checks decrypt(encrypt(x)) = x, FP o IP = id, P^-1 o P = id, parity irrelevance; every behaviour is compared with the real code at every at_des x at_round x after_step x '
+            '{encrypt, decrypt} (ten documented views), with master and pre-expanded keys, four broadcasting shapes, caller arrays unchanged; all 8 x 64 S-box inputs; permutations on all unit vectors, all-ones and random vectors.',
+            'Keys and blocks sampled; quick tier restricts most behaviours to rounds 0, 1, 7, 14, 15 (one behaviour per key length covers all 16).', '6/C06'),
+    'C07': ('TLA+ definitions of every ready-made selection function (SelAES.tla, SelDES.tla: local computation, designated round key, targeted word of the real cipher run) with the theorem Hyp(in, ExpectedKey[w], w) = Target '
+            'checked by TLC on every behaviour of the FIPS step machines; hypothesis tables for all guesses (SelAESCases / SelDESCases) compared with the real functions',
+            'For AES-128/192/256 and DES behaviours TLC proves the theorem for all 5 + 8 functions and all words; the real functions (encrypt and decrypt namespaces) are compared with the full tables for every guess and word '
+            'on non-square batches, expected-key functions with the specification round keys, true-key columns with the trail, words/guesses selections with slices of the full output.',
+            'Keys sampled; DES functions on single DES.', '6/C07'),
     'C08': ('TLA+ model of the convergence bookkeeping inside the run loop (Analysis.tla) model-checked by TLC for every (set sizes, batch size, step, runs) in the bound; generated behaviours executed on real attacks',
             'TLC checks strictly increasing points, in-loop spacing >= step, remainder only as last of a run, last point = processed, columns taken at fresh computes; each behaviour is executed on CPA/DPA/ANOVA/NICV/SNR/MIA '
             'attacks: positions equal the specification, every column bit-identical to fresh prefix scores, last column = final scores, results/scores identical without convergence.',
@@ -56,6 +70,11 @@ CLAIMED = {
             'three _compute_metric formulas equal the textbook definitions over non-empty classes and that no result is infinite; each state is executed on the real objects '
             '(both precisions); 3..12 declared classes and automatic class sets with maxima in every threshold range are compared against exact rationals.',
             'Exact rational definitions; float comparison within 64 eps x cancellation factor; LUT builder memoised.', '6/C04'),
+    'C10': ('TLA+ model of the code-shaped AES forward/backward expansion loops against the FIPS recurrence (AESKeys.tla, exhaustive over every window and target column), window-recovery lemma (AESRun.tla), DES schedule '
+            'from PC-1 / shifts / PC-2 and parity lemmas (DESKeys.tla); outputs of the real key_expansion / key_schedule / inv_key_schedule / get_master_key judged by TLC',
+            'TLC checks K = P for every (col_in, col_out) of the three key sizes and that every window of Nk words regenerates the schedule; every real key_expansion output for every window and target, key_schedule and '
+            'inv_key_schedule(0..10) are accepted by TLC; DES key_schedule for all interrupt rounds incl. all 64 single-bit keys; get_master_key from every round key returns the key up to parity (judged by TLC).',
+            'Keys sampled; single-key layout quirk of key_schedule compared after flattening.', '6/C10'),
     'C11': ('TLA+ concurrency model of both accumulation kernels at loop-nest granularity (KernelRace.tla: all interleavings of prange iterations, read/write steps), dtype-of-squaring '
             'model (SquareK.tla), kernel-sequence history machine (KernelSeq.tla) model-checked by TLC; histories replayed on the real objects with the kernel forced per batch through the '
             'SCARED_VERIF hook under several thread counts; unforced runs validated against the choice-rule model',
